@@ -90,7 +90,7 @@ SPELLINGS = {
 }
 
 
-def gc_history(sp, spelling="abs", L=3, first=None, ops=None):
+def gc_history(sp, spelling="abs", L=3, first=None, second=None, ops=None):
     cfg = SPELLINGS[spelling]
     with Env(sp, rig=cfg["rig"], root=cfg["root"], s3_prefix=cfg.get("prefix", "tbl"), clock="tick") as e:
         if "link" in cfg:
@@ -108,8 +108,13 @@ def gc_history(sp, spelling="abs", L=3, first=None, ops=None):
         if first is not None:
             h.ops = [first]
             h.step(0)
+            k0 = 1
+            if second is not None:
+                h.ops = [second]
+                h.step(1)
+                k0 = 2
             h.ops = ops
-            for k in range(1, L):
+            for k in range(k0, L):
                 h.step(k)
         else:
             h.run(L)
@@ -254,15 +259,15 @@ def obligations(tier):
     if tier == "quick":
         plan = [(s, None, 2, T) for s in ["abs", "rel", "symlink", "rel_data", "rel_d", "trailing", "s3_p", "s3_data"]]
     else:
-        # every spelling: histories of 3 operations; the two main spellings: histories of 4 (sized from measured runs: an L=4 obligation
-        # explores 10-40 k histories)
-        plan = [(s, f, 3, 900) for s in SPELLINGS for f in firsts_all]
-        plan += [(s, f, 4, 2400) for s in ("abs", "s3_p") for f in firsts_all]
+        # sized from a measured run (an L=3 sub-tree below one first operation: 4-10 k histories, ~10 min): every spelling with histories
+        # of 2; the spellings 'abs', 'rel_data', 'symlink', 's3_p', 's3_data' with histories of 3, partitioned by the first operation
+        plan = [(s, None, 2, 900) for s in SPELLINGS]
+        plan += [(s, f, 3, 1500) for s in ("abs", "rel_data", "symlink", "s3_p", "s3_data") for f in firsts_all]
     for s, f, L, TT in plan:
         obs.append(Ob(f"b.history.{s}{'.' + f if f else ''}.L{L}", "vf.props.c05:gc_history",
                       {"spelling": s, "L": L, "first": f, "_must_reach": ["ran"], "_sample_every": 25}, timeout=TT,
                       bounds=f"location spelling '{s}' ({SPELLINGS[s]}), 2-file append + append + {L} solver-chosen operations"
-                             f"{' starting with ' + f if f else ''} + a final collection", weight=L + 2, allow_inconclusive=(L == 4)))
+                             f"{' starting with ' + f if f else ''} + a final collection", weight=L + 2, allow_inconclusive=(L >= 3)))
     for sname in (["abs", "s3_p"] if tier == "quick" else ["abs", "rel_data", "symlink", "s3_p", "s3_data"]):
         for second in (False, True):
             if tier == "quick" and second and sname != "s3_p":
